@@ -10,6 +10,7 @@ CONSTANTS
   WriteFallback = TRUE
   CrashBudget = 0
   AdvBudget = 0
+  Debris <- NoDebris
 VIEW View
 INVARIANTS InvDirValid InvDebris InvHandle InvNoErr
 PROPERTIES StepImmutable StepReadOnlyFirst StepRemoval
